@@ -537,7 +537,9 @@ def _wires_norm(x):
     return [wlabel(x)]
 
 
-def _hyper_of(obj):
+def _hyper_of(obj, full=True):
+    """full: every bound argument of an Operator2 (dynamic ones too: e.g. the control values of ControlledOp2 are dynamic but not
+    in `data`); not full (the masked `shape` text): without the dynamic arguments, which Rebind is allowed to change."""
     if isinstance(obj, MeasurementProcess):
         hyper = {"obs": obj.obs, "mv": obj.mv, "raw_wires": str(_wires_norm(getattr(obj, "raw_wires", None)))}
         for k in sorted(vars(obj)):
@@ -545,7 +547,7 @@ def _hyper_of(obj):
                 hyper[k] = vars(obj)[k]
         return hyper
     if isinstance(obj, Operator2):
-        hyper = {k: v for k, v in obj.arguments.items() if k not in obj.dynamic_argnames}
+        hyper = {k: v for k, v in obj.arguments.items() if full or k not in obj.dynamic_argnames}
     else:
         hyper = dict(obj.hyperparameters)
         for attr in ("control_values", "work_wires", "control_wires", "z", "scalar", "grouping_indices"):
@@ -564,7 +566,7 @@ def content(obj, depth=0):
     `hyper` holds nested operators with their parameter values, `shape` the same text with every numeric value masked
     (names, classes, wires, strings, nesting: a necessary part of what must survive Rebind)."""
     cls = type(obj).__module__ + "." + type(obj).__qualname__
-    hyper = _hyper_of(obj)
+    hyper = _hyper_of(obj, full=not _MODE["mask"])
     if depth == 0 and not _MODE["mask"]:
         del _IFACES[:]
     if isinstance(obj, MeasurementProcess):
@@ -577,7 +579,7 @@ def content(obj, depth=0):
         out["ifc"] = ",".join(_IFACES)
         _MODE["mask"] = True
         try:
-            out["shape"] = canon(hyper, 1)
+            out["shape"] = canon(_hyper_of(obj, full=False), 1)
         finally:
             _MODE["mask"] = False
     return out
